@@ -158,6 +158,16 @@ def run(ctx):
             else:
                 ns = sorted({0, 2 ** (F - 1) - 1} | {int(rng.integers(0, 2 ** min(F - 1, 62))) for _ in range(12)})
             flipped = {}
+            # the sectors do not depend on which flux variant was asked for first on a lattice object: a twin on which the complex variant is the very first query
+            try:
+                twin = zoo.rebuild(l)
+                ff.fluxes_from_ujk(twin, bases[0], real=False)
+                for n in list(ns)[:6]:
+                    v_ = ff.n_to_ujk_flipped(n, bases[0], tree)
+                    if not np.array_equal(ff.fluxes_from_ujk(twin, v_), ff.fluxes_from_ujk(l, v_)):
+                        rep(f"the flux sector of n={n} read from a lattice object whose first flux query was the complex variant differs from the sector read from a twin", n=n); break
+            except Exception as ex:
+                rep(f"flux query on a twin raised {type(ex).__name__}: {ex}")
             for bi, u in enumerate(bases if shortest else bases[:1]):
                 sectors = {}
                 before = u.tobytes(); tb = np.asarray(tree).tobytes()
